@@ -503,7 +503,7 @@ SUBS = [
     Sub(name='every-edge-enum', kind='enum', run=run_edges, size=edge_size, case_at=edge_case, exhaustive=True,
         rule='complete enumeration: for every grid size n <= 384 (quick) / 2048 (thorough), samples exactly on every voxel edge k/n, one ulp below and above it, at every voxel centre and at the last representable coordinate below 1, binned through trajectory_to_volume (each sample is one evaluation)',
         shards={'quick': 16, 'thorough': 16}),
-    Sub(name='large-trajectories', kind='hyp', run=run_large, strategy=large_cases,
+    Sub(name='large-trajectories', kind='hyp', shrink=False, run=run_large, strategy=large_cases,
         rule='trajectories with 1.2e5 - 2.3e6 (1.1e7) samples (1-40 atoms, so up to 2.3e6 frames) of deterministic quasi-random coordinates in all lattices, 1-40 voxels per axis: every sample counted once in floor(x*n) (vectorised brute force); reaches size-dependent code paths (chunking, integer widths)',
         n={'quick': 2, 'thorough': 4}, shards={'quick': 6, 'thorough': 16}),
     Sub(name='volume-histories', kind='hyp', run=run_history, strategy=history_cases,
